@@ -50,38 +50,50 @@ structure Node where
 inductive Item | leaf (l : Leaf) | node (n : Node)
   deriving Repr, Inhabited
 
+/-- the leaf seen from the struct that embeds (anonymously) the struct it belongs to: same keys -/
+def Leaf.under (i : Nat) (l : Leaf) : Leaf := { l with path := i :: l.path }
+
+/-- the leaf seen from the struct that holds the struct it belongs to as the nested field `name`
+    with key `key`: its keys are prefixed with `key.`, errors are reported below `name` -/
+def Leaf.below (i : Nat) (name key : Bytes) (l : Leaf) : Leaf :=
+  { l with path := i :: l.path, names := name :: l.names, keys := l.keys.map (key ++ B "." ++ ·), nested := true }
+
+def Item.under (i : Nat) : Item → Item
+  | .leaf l => .leaf (l.under i)
+  | .node n => .node n
+
+def Item.below (i : Nat) (name key : Bytes) : Item → Item
+  | .leaf l => .leaf (l.below i name key)
+  | .node n => .node { names := name :: n.names, depth := n.depth + 1 }
+
 mutual
-/-- unfold one field: an embedded struct contributes its fields in place (same keys), a nested
-    struct contributes a node and its fields under `<name>.`, anything else is a leaf -/
-def itemsFld (tag : Tag) (pre : Bytes) (names : List Bytes) (path : List Nat) (depth : Nat) (nested : Bool)
-    (i : Nat) (h : FieldHdr) : Ty → List Item
+/-- unfold field `i`: an embedded struct contributes its fields in place (same keys), a nested
+    struct contributes a node and its fields under `<key>.`, anything else is a leaf -/
+def itemsFld (tag : Tag) (i : Nat) (h : FieldHdr) : Ty → List Item
   | .struct fs =>
     if !h.exported then []
-    else if h.anon then itemsFs tag pre names (path ++ [i]) depth nested 0 fs
+    else if h.anon then (itemsFs tag 0 fs).map (Item.under i)
     else match tagNames (h.tag tag) h.name (tag == .form) with
       | none => []
-      | some (p, _) => .node { names := names ++ [h.name], depth := depth + 1 } ::
-          itemsFs tag (pre ++ p ++ B ".") (names ++ [h.name]) (path ++ [i]) (depth + 1) true 0 fs
+      | some (p, _) => .node { names := [h.name], depth := 1 } :: (itemsFs tag 0 fs).map (Item.below i h.name p)
   | .ptr (.struct fs) =>
     if !h.exported then []
-    else if h.anon then itemsFs tag pre names (path ++ [i]) depth nested 0 fs
+    else if h.anon then (itemsFs tag 0 fs).map (Item.under i)
     else match tagNames (h.tag tag) h.name (tag == .form) with
       | none => []
-      | some (p, _) => .node { names := names ++ [h.name], depth := depth + 1 } ::
-          itemsFs tag (pre ++ p ++ B ".") (names ++ [h.name]) (path ++ [i]) (depth + 1) true 0 fs
+      | some (p, _) => .node { names := [h.name], depth := 1 } :: (itemsFs tag 0 fs).map (Item.below i h.name p)
   | t =>
     if !h.exported then []
     else match tagNames (h.tag tag) h.name (tag == .form) with
       | none => []
-      | some (p, as) => [.leaf { path := path ++ [i], names := names ++ [h.name],
-                                 keys := (p :: as).map (pre ++ ·), ty := t, dflt := h.dflt, nested := nested }]
-def itemsFs (tag : Tag) (pre : Bytes) (names : List Bytes) (path : List Nat) (depth : Nat) (nested : Bool) :
-    Nat → List Fld → List Item
+      | some (p, as) => [.leaf { path := [i], names := [h.name], keys := p :: as, ty := t, dflt := h.dflt, nested := false }]
+def itemsFs (tag : Tag) : Nat → List Fld → List Item
   | _, [] => []
-  | i, (h, t) :: rest => itemsFld tag pre names path depth nested i h t ++ itemsFs tag pre names path depth nested (i+1) rest
+  | i, (h, t) :: rest => itemsFld tag i h t ++ itemsFs tag (i+1) rest
 end
 
-def items (tag : Tag) (fs : List Fld) : List Item := itemsFs tag [] [] [] 0 false 0 fs
+/-- unfold a struct type into leaves and nodes -/
+def items (tag : Tag) (fs : List Fld) : List Item := itemsFs tag 0 fs
 
 def leavesOf (tag : Tag) (fs : List Fld) : List Leaf :=
   (items tag fs).filterMap fun | .leaf l => some l | _ => none
